@@ -203,6 +203,18 @@ func sub(a, b string) string {
 // accessor applies a datatype accessor with peephole simplification on constructor terms.
 func (c *Ctx) accessor(acc string, t string) string {
 	if ci, ok := c.accIndex[acc]; ok {
+		// look through definitional names (x!n = (ctor …)) so that equal values get equal terms
+		for i := 0; i < 6; i++ {
+			d, isDef := c.defs[t]
+			if !isDef {
+				break
+			}
+			if (strings.HasPrefix(d, "("+ci.ctor+" ") && strings.HasPrefix(ci.ctor, "mk_St_")) || !strings.HasPrefix(d, "(") {
+				t = d
+				continue
+			}
+			break
+		}
 		if h, args, ok2 := splitSexp(t); ok2 && h == ci.ctor && len(args) == ci.n {
 			return args[ci.idx]
 		}
@@ -569,6 +581,16 @@ func (c *Ctx) literalAxioms() []string {
 		if len(s) == 1 {
 			out = append(out, fmt.Sprintf("(= %s (gs.frombyte %s))", n, bvLit(int64(s[0]))))
 		}
+		if len(s) == 2 {
+			out = append(out, fmt.Sprintf("(= %s (gs.cat (gs.frombyte %s) (gs.frombyte %s)))", n, bvLit(int64(s[0])), bvLit(int64(s[1]))))
+		}
+		if len(s) == 3 {
+			out = append(out, fmt.Sprintf("(= %s (gs.cat (gs.cat (gs.frombyte %s) (gs.frombyte %s)) (gs.frombyte %s)))", n, bvLit(int64(s[0])), bvLit(int64(s[1])), bvLit(int64(s[2]))))
+		}
+		if len(s) == 0 {
+			out = append(out, fmt.Sprintf("(forall ((x Str)) (! (= (gs.cat %s x) x) :pattern ((gs.cat %s x))))", n, n))
+			out = append(out, fmt.Sprintf("(forall ((x Str)) (! (= (gs.cat x %s) x) :pattern ((gs.cat x %s))))", n, n))
+		}
 		if len(s) <= 12 {
 			for i := 0; i < len(s); i++ {
 				out = append(out, fmt.Sprintf("(= (gs.at %s %d) %s)", n, i, bvLit(int64(s[i]))))
@@ -614,6 +636,7 @@ const prelude = `
 (define-fun f.eq ((a F64) (b F64)) Bool (and (not (f.nan a)) (not (f.nan b)) (= (f.val a) (f.val b))))
 (assert (forall ((a Str) (b Str)) (! (= (gs.len (gs.cat a b)) (+ (gs.len a) (gs.len b))) :pattern ((gs.cat a b)))))
 (assert (forall ((a Str)) (! (>= (gs.len a) 0) :pattern ((gs.len a)))))
+(assert (forall ((a Str) (b Str) (j Int)) (! (= (gs.at (gs.cat a b) j) (ite (< j (gs.len a)) (gs.at a j) (gs.at b (- j (gs.len a))))) :pattern ((gs.at (gs.cat a b) j)))))
 (assert (forall ((A (Array Int (_ BitVec 8))) (o Int) (n Int)) (! (=> (>= n 0) (= (gs.len (gs.frombytes A o n)) n)) :pattern ((gs.frombytes A o n)))))
 (assert (forall ((A (Array Int (_ BitVec 8))) (o Int) (n Int) (j Int)) (! (=> (and (<= 0 j) (< j n)) (= (gs.at (gs.frombytes A o n) j) (select A (+ o j)))) :pattern ((gs.at (gs.frombytes A o n) j)))))
 (assert (forall ((s Str) (a Int) (b Int)) (! (=> (and (<= 0 a) (<= a b) (<= b (gs.len s))) (= (gs.len (gs.sub s a b)) (- b a))) :pattern ((gs.sub s a b)))))
